@@ -69,6 +69,12 @@ def handle (j : Json) : Json :=
     match toNew os with
     | none => Json.str "ValueError"
     | some s => jslot s
+  else if op == "to_new_list" then
+    let mk := fun (o : Json) => ({ cores := resOf (jget o "cores"), gpus := resOf (jget o "gpus"), lfs := jnat o "lfs",
+                                   mem := jnat o "mem", nodeIndex := jnat o "node_index", nodeName := jstr o "node_name" } : OldSlot)
+    match toNewList ((jarr j "olds").map mk) with
+    | none => Json.str "ValueError"
+    | some l => jl (l.map jslot)
   else if op == "to_old" then
     let o := jget j "new"
     let pr := fun (x : Json) => (asArr x).map (fun y => (jnat y "index", jnat y "occ"))
